@@ -215,3 +215,98 @@ func OnceValue[T any](f func() T) func() T {
 		return v
 	}
 }
+
+// OnceValues replaces sync.OnceValues.
+func OnceValues[T1, T2 any](f func() (T1, T2)) func() (T1, T2) {
+	var o Once
+	var v1 T1
+	var v2 T2
+	return func() (T1, T2) {
+		o.Do(func() { v1, v2 = f() })
+		return v1, v2
+	}
+}
+
+// TryLock tries to acquire the write lock.
+func (m *RWMutex) TryLock() bool {
+	if free() {
+		return m.real.TryLock()
+	}
+	mcrt.Point()
+	if m.writer || m.readers > 0 {
+		return false
+	}
+	m.writer = true
+	return true
+}
+
+// TryRLock tries to acquire a read lock.
+func (m *RWMutex) TryRLock() bool {
+	if free() {
+		return m.real.TryRLock()
+	}
+	mcrt.Point()
+	if m.writer {
+		return false
+	}
+	m.readers++
+	return true
+}
+
+func (m *Map) Swap(k, v any) (any, bool)       { mcrt.Point(); return m.real.Swap(k, v) }
+func (m *Map) CompareAndSwap(k, o, n any) bool { mcrt.Point(); return m.real.CompareAndSwap(k, o, n) }
+func (m *Map) CompareAndDelete(k, o any) bool  { mcrt.Point(); return m.real.CompareAndDelete(k, o) }
+func (m *Map) Clear()                          { mcrt.Point(); m.real.Clear() }
+
+// Cond replaces sync.Cond: Wait releases L, blocks until a later Signal/Broadcast, then re-acquires L.
+type Cond struct {
+	L       Locker
+	real    *sync.Cond
+	waiters []*bool
+}
+
+// NewCond replaces sync.NewCond.
+func NewCond(l Locker) *Cond { return &Cond{L: l} }
+
+func (c *Cond) Wait() {
+	if free() {
+		if c.real == nil {
+			c.real = sync.NewCond(c.L)
+		}
+		c.real.Wait()
+		return
+	}
+	waiting := true
+	c.waiters = append(c.waiters, &waiting)
+	c.L.Unlock()
+	mcrt.Block(func() bool { return waiting })
+	c.L.Lock()
+}
+
+func (c *Cond) Signal() {
+	if free() {
+		if c.real != nil {
+			c.real.Signal()
+		}
+		return
+	}
+	mcrt.Point()
+	if len(c.waiters) > 0 {
+		*c.waiters[0] = false
+		c.waiters = c.waiters[1:]
+	}
+}
+
+func (c *Cond) Broadcast() {
+	if free() {
+		if c.real != nil {
+			c.real.Broadcast()
+		}
+		return
+	}
+	mcrt.Point()
+	for _, w := range c.waiters {
+		*w = false
+	}
+	c.waiters = nil
+}
